@@ -845,6 +845,35 @@ func runC07(c *engine.Ctx) {
 			}
 		}
 	}
+	if c.Replay != nil {
+		// replay one recorded schedule without the explorer
+		for _, sc := range c07Scenarios() {
+			if sc.name != c.Replay.Spec {
+				continue
+			}
+			kind := drv.Kind(c.Replay.World)
+			r := &c07Runner{sc: sc, kind: kind}
+			choices := c.Replay.OpIdx
+			res, d := r.runSched(func(i int, p *vsched.PointInfo) int {
+				if i < len(choices) && choices[i] < len(p.Enabled) {
+					return choices[i]
+				}
+				return 0
+			})
+			x := &engine.Execution{Choices: choices, Result: res, Data: d}
+			fmt.Println("REPLAY schedule:", engine.RenderSchedule(x))
+			for _, l := range renderEvents(d.(*c07Exec).events) {
+				fmt.Println("  ", l)
+			}
+			if v := c07Check(sc, kind)(x); v != nil {
+				v.World, v.Spec = string(kind), sc.name
+				c.Report(v)
+			} else {
+				fmt.Println("  no violation on replay")
+			}
+		}
+		return
+	}
 	exe, err := os.Executable()
 	if err != nil {
 		engine.HarnessError("C07: %v", err)
